@@ -166,7 +166,13 @@ fn history<C: Col + ColorMapping>(ctx: &mut Ctx, rng: &mut Rng, palette: &[C]) {
         let kind = if trace.is_empty() && rng.chance(1, 6) { 7 + rng.below(2) } else { rng.below(9) };
         let (px, label, real_op): (Vec<(i32, i32, C)>, String, Real<C>) = match kind {
             7 => {
-                let a = rect(rng.i32r(-130, 40), rng.i32r(-130, 40), rng.u32r(60, 170), rng.u32r(60, 170));
+                // one in twelve of these hands over more than a million points in one call (seeded
+                // `C20-13`: a per-call item limit of 2^20 that also counts the ignored points)
+                let a = if rng.chance(1, 12) {
+                    rect(rng.i32r(-900, 10), rng.i32r(-900, 10), rng.u32r(1025, 1300), rng.u32r(1025, 1100))
+                } else {
+                    rect(rng.i32r(-130, 40), rng.i32r(-130, 40), rng.u32r(60, 170), rng.u32r(60, 170))
+                };
                 let c = pick(rng);
                 let list: Vec<(i32, i32, C)> = area_list(&a).into_iter().map(|p| (p.0, p.1, c)).collect();
                 match rng.below(3) {
